@@ -203,7 +203,14 @@ RunClauses ==
              << <<"L2.initialize", Run.ret = "ok" /\
                    LET x == InitializeFlagsF(Cfg, [st |-> Pre.st, lg |-> Pre.lg], Run.args.state, Run.args.log)
                    IN Run.final.st = x.st /\ [Run.final.lg EXCEPT !.absL = <<>>] = [x.lg EXCEPT !.absL = <<>>]>> >>
-        [] Run.op = "reverse" -> << <<"L2.reverse", Run.final.lg = ReverseLogsF(Pre.lg) /\ Run.final.st = Pre.st>> >>
+        [] Run.op = "reverse" ->
+             << <<"L2.reverse", Run.final.lg = ReverseLogsF(Pre.lg) /\ Run.final.st = Pre.st>> >>
+             \* the display rule survives the reversal: row k is an absence row afterwards iff its
+             \* mirror image was one before (entries outside the logs do not matter)
+             \o On("C08", LET n == Len(Pre.lg.pcost)
+                              inside(L) == { a \in ToSet(L) : a >= 0 /\ a < n }
+                          IN << <<"C08.H.absence-mirrored", Run.ret = "ok" =>
+                                   inside(Run.final.lg.absL) = { n - 1 - a : a \in inside(Pre.lg.absL) }>> >>)
         [] Run.op = "remove_absence" ->
              On("C18", C18_H(Cfg, Run, Pre))
              \o (IF Run.ret = "ok" THEN On("C07", C07_AfterEdit(Cfg, Opts, Run.final.lg)) ELSE <<>>)   \* (these clauses guard their own indexing)
